@@ -329,7 +329,8 @@ theorem c02_dispatch_win {r1 r' : Raft} {m : Message} {res : Option RaftError}
     (selfWins r1 ∧ r'.term = r1.term + 1 ∧ r'.vote = r1.id ∧
       (m.msgType = .msgHup ∨ m.msgType = .msgTimeoutNow ∨
        (r1.state = .preCandidate ∧ m.msgType = .msgRequestPreVoteResponse ∧
-         Tracker.voteResult r1.prs.voters (r1.prs.recordVote m.frm (!m.reject)).votes = .won))) := by
+         Tracker.voteResult r1.prs.voters (r1.prs.recordVote m.frm (!m.reject)).votes = .won ∧
+         (m.reject = true ∨ m.term = r1.term + 1)))) := by
   rcases hd with ⟨hm, hh⟩ | ⟨_, hv⟩ | ⟨_, _, _, hr⟩
   · obtain ⟨a, b, c⟩ := c02_hup_win hh hs hl
     exact Or.inr ⟨a, b, c, Or.inl hm⟩
@@ -354,7 +355,7 @@ theorem c02_dispatch_win {r1 r' : Raft} {m : Message} {res : Option RaftError}
         rw [c02_voted_tally] at p1
         rcases p2 with ⟨a, b, c⟩ | ⟨a, b, c⟩ | ⟨_, c⟩ | ⟨_, c⟩
         · unfold Raft.campaignAfterPreVote at c
-          have hty : m.msgType = .msgRequestPreVoteResponse := by
+          have hty : m.msgType = .msgRequestPreVoteResponse ∧ (m.reject = true ∨ m.term = r1.term + 1) := by
             rcases hk with ⟨k, _⟩ | ⟨_, k⟩
             · rw [b] at k; cases k
             · exact k
@@ -362,7 +363,7 @@ theorem c02_dispatch_win {r1 r' : Raft} {m : Message} {res : Option RaftError}
           · obtain ⟨r0, _, k2, k3, _, _, k6⟩ := w.path
             obtain ⟨_, x, y, _⟩ := c02_wonBy_spec k6
             refine Or.inr ⟨(c02_selfWins_keep (c02_voted_keep _ _ _)).1 w.self, ?_, ?_,
-              Or.inr (Or.inr ⟨b, hty, by rw [← p1]; exact a⟩)⟩
+              Or.inr (Or.inr ⟨b, hty.1, by rw [← p1]; exact a, hty.2⟩)⟩
             · rw [q3, x, k2]; rfl
             · rw [q4, y, k3]; rfl
           · exfalso
@@ -391,7 +392,8 @@ def WonElection (r r' : Raft) (m : Message) : Prop :=
   (selfWins r ∧ r.term < r'.term ∧ r'.vote = r.id ∧
     (m.msgType = .msgHup ∨ m.msgType = .msgTimeoutNow ∨
      (r.state = .preCandidate ∧ m.msgType = .msgRequestPreVoteResponse ∧
-       Tracker.voteResult r.prs.voters (r.prs.recordVote m.frm (!m.reject)).votes = .won)))
+       Tracker.voteResult r.prs.voters (r.prs.recordVote m.frm (!m.reject)).votes = .won ∧
+       (m.reject = true ∨ m.term = r.term + 1))))
 
 /-- **C02 (5) `win_needs_quorum`.**  The role `Leader` is entered only through `become_leader`, called
 only from `poll` when the tally of the recorded votes is `Won` for the tracker's (joint)
@@ -405,8 +407,11 @@ configuration.  For every state and message: if `step` turns a non-leader into a
   recorded grant; term and vote are unchanged (the vote of a candidate is its own id); or
 * (b) **the node's own vote is a quorum** of its configuration (`selfWins`, a single-voter
   configuration, `C02_selfWins_iff`): the step is a campaign trigger (`MsgHup`, `MsgTimeoutNow`) or the
-  pre-vote response that completes a pre-candidate's pre-vote quorum; the node campaigns inside the
-  step (`become_candidate`: term + 1, vote for itself) and wins with its own vote.
+  pre-vote response that completes a pre-candidate's pre-vote quorum — since fix F16 a *granted*
+  pre-vote response is counted only if it carries the term of this pre-campaign, `m.term = r.term + 1`
+  (`WonElection` now says so; a grant of any other term is ignored, `C16_stale_prevote_grant_ignored`);
+  the node campaigns inside the step (`become_candidate`: term + 1, vote for itself) and wins with its
+  own vote.
 
 A pre-vote response is never counted towards leadership: in (b) the real election that follows is won
 by the own vote alone. -/
